@@ -1290,8 +1290,14 @@ impl Oracle {
                     j += 1;
                 } else if relax_j {
                     j += 1; // a row of a finished, dropped bar: may be missing when kept rows are not checked
-                } else if got[i].is_empty() && (self.transcript_gap.get(j).copied().unwrap_or(false) || self.relax_d22) {
-                    i += 1; // padding left above the output of a suspend closure (bottom alignment)
+                } else if got[i].is_empty()
+                    && (self.transcript_gap.get(j).copied().unwrap_or(false)
+                        || (self.relax_d22
+                            && (kept_j == 2 || (j > 0 && self.transcript_kept.get(j - 1).copied().unwrap_or(0) == 2))))
+                {
+                    // padding left above the output of a suspend closure (bottom alignment); under the D22
+                    // re-check: padding rows kept in the place of / next to the rows of a D22 item ONLY
+                    i += 1;
                 } else {
                     ok = false;
                     break;
@@ -1442,14 +1448,23 @@ impl Oracle {
             }
         }
         let first_live = items.iter().position(|i| i.state != ItemState::Kept).unwrap_or(items.len());
-        let blank_at = if !self.bottom_ever {
-            None
-        } else if relaxed_any_region || self.gap_pending {
-            Some(usize::MAX) // anywhere: the padding rows may have been kept instead of a bar's rows
-        } else {
-            Some(first_live) // the padding sits directly above the first live bar line
-        };
-        match match_region(&region, &items, 0, 0, blank_at) {
+        // where blank padding rows may sit (bottom alignment), per item index k = "directly above item k":
+        // above the first live bar line; anywhere when kept rows are not checked at all (C02/C03 mode) or a
+        // suspend gap is pending; under the D22 re-check ONLY in the place of / directly next to a D22 item
+        // (the padding rows that were kept instead of that bar's rows) - not anywhere else in the frame
+        let blank_at: Vec<bool> = (0..=items.len())
+            .map(|k| {
+                if !self.bottom_ever {
+                    false
+                } else if !self.kept_rows_checked || self.gap_pending {
+                    true
+                } else {
+                    let d22k = |k: usize| items.get(k).map_or(false, |i| i.state == ItemState::Kept && i.d22);
+                    k == first_live || (self.relax_d22 && (d22k(k) || (k > 0 && d22k(k - 1))))
+                }
+            })
+            .collect();
+        match match_region(&region, &items, 0, 0, &blank_at) {
             Some(choice) => {
                 if !after_clear {
                     let rows: usize = choice
@@ -1581,7 +1596,7 @@ impl Oracle {
 
 /// backtracking match of the region rows against the items; returns, per item, the index of the
 /// candidate that was shown (None = optional item absent)
-fn match_region(rows: &[String], items: &[Item], k: usize, p: usize, blank_at: Option<usize>) -> Option<Vec<Option<usize>>> {
+fn match_region(rows: &[String], items: &[Item], k: usize, p: usize, blank_at: &[bool]) -> Option<Vec<Option<usize>>> {
     if k == items.len() {
         // the rest must be blank
         return if rows[p.min(rows.len())..].iter().all(|r| r.is_empty()) {
@@ -1611,10 +1626,7 @@ fn match_region(rows: &[String], items: &[Item], k: usize, p: usize, blank_at: O
         }
     }
     // bottom alignment: blank padding rows directly above the first live bar line
-    let blank_ok = match blank_at {
-        None => false,
-        Some(b) => b == usize::MAX || b == k,
-    };
+    let blank_ok = blank_at.get(k).copied().unwrap_or(false);
     if blank_ok && p < rows.len() && rows[p].is_empty() {
         return match_region(rows, items, k, p + 1, blank_at);
     }
@@ -1634,6 +1646,19 @@ pub fn run_sys_cases_mode(
     cases: &[Case],
     nontrivial: &dyn Fn(&Case, &[StepObs]) -> bool,
     kept_rows_checked: bool,
+) {
+    run_sys_cases_wrapped(s, cases, nontrivial, kept_rows_checked, &|_, coq, _| coq)
+}
+
+/// `wrap(case, coq term of the syscase, class of the oracle's violation if any)` = the Coq term registered
+/// for the case: lets a binary hand the oracle's verdict to its own checker (bin c19: `C19Single c verdict`,
+/// cross-checked in the shard with the hypotheses of its theorem).
+pub fn run_sys_cases_wrapped(
+    s: &mut crate::Session,
+    cases: &[Case],
+    nontrivial: &dyn Fn(&Case, &[StepObs]) -> bool,
+    kept_rows_checked: bool,
+    wrap: &dyn Fn(&Case, String, Option<&str>) -> String,
 ) {
     let mut checks = 0;
     for case in cases {
@@ -1663,6 +1688,7 @@ pub fn run_sys_cases_mode(
         }
         checks += or.checks;
         let bad_is_none = bad.is_none();
+        let bad_class: Option<String> = bad.as_ref().map(|v| v.class.clone());
         if let Some(v) = bad {
             s.fail(&v.class, v.detail, desc.clone());
         }
@@ -1697,7 +1723,7 @@ pub fn run_sys_cases_mode(
             obs.iter().filter(|o| o.emitted.is_empty()).count() as u64,
         );
         let nt = nontrivial(case, &obs);
-        s.case(coq_case(case, &obs), desc, nt);
+        s.case(wrap(case, coq_case(case, &obs), bad_class.as_deref()), desc, nt);
     }
     s.count_n("oracle_screen_checks", checks);
 }
